@@ -261,7 +261,7 @@ def _chi_to_choi(q_oper):
                 copy=False)
 
 
-def _svd_u_to_kraus(U, S, d, dK, indims, outdims):
+def _svd_u_to_kraus(U, S, d_out, d_in, dK, indims, outdims):
     """
     Given a partial isometry U and a vector of square-roots of singular values
     S obtained from a SVD, produces the Kraus operators represented by U.
@@ -273,7 +273,9 @@ def _svd_u_to_kraus(U, S, d, dK, indims, outdims):
     """
     # We use U * S since S is 1-index, such that this is equivalent to
     # U . diag(S), but easier to write down.
-    data = np.array(U * S).reshape((d, d, dK), order='F').transpose((2, 0, 1))
+    data = np.array(U * S).reshape(
+        (d_out, d_in, dK), order='F'
+    ).transpose((2, 0, 1))
     return [
         Qobj(x,
              dims=[outdims, indims],
@@ -293,13 +295,11 @@ def _generalized_kraus(q_oper, threshold=1e-10):
             " (superrep ", repr(q_oper.superrep), ")."
         ]))
 
-    # Remember the shape of the underlying space,
-    # as we'll need this to make Kraus operators later.
-    dL, dR = int(np.sqrt(q_oper.shape[0])), int(np.sqrt(q_oper.shape[1]))
-    # Also remember the dims breakout.
-    out_dims, in_dims = q_oper.dims
-    out_left, out_right = out_dims
-    in_left, in_right = in_dims
+    # Remember the shape of the underlying spaces, as we'll need them to make
+    # Kraus operators later. A Choi matrix is labelled [[in, out], [in, out]].
+    (in_left, out_left), (in_right, out_right) = q_oper.dims
+    d_in = int(np.prod(flatten(in_left)))
+    d_out = int(np.prod(flatten(out_left)))
 
     # Find the SVD.
     U, S, V = scipy.linalg.svd(q_oper.full())
@@ -319,8 +319,8 @@ def _generalized_kraus(q_oper, threshold=1e-10):
     # Finally, we want the Kraus index to be left-most so that we
     # can map over it when making Qobjs.
     # FIXME: does not preserve dims!
-    kU = _svd_u_to_kraus(U, S, dL, dK, out_right, out_left)
-    kV = _svd_u_to_kraus(V, S, dL, dK, in_right, in_left)
+    kU = _svd_u_to_kraus(U, S, d_out, d_in, dK, in_left, out_left)
+    kV = _svd_u_to_kraus(V, S, d_out, d_in, dK, in_right, out_right)
 
     return kU, kV
 
@@ -331,21 +331,18 @@ def _choi_to_stinespring(q_oper, threshold=1e-10):
 
     assert len(kU) == len(kV)
     dK = len(kU)
-    dL = kU[0].shape[0]
-    dR = kV[0].shape[1]
-    # Also remember the dims breakout.
-    out_dims, in_dims = q_oper.dims
-    out_left, out_right = out_dims
-    in_left, in_right = in_dims
+    d_out, d_in = kU[0].shape
+    # Also remember the dims breakout: [[in, out], [in, out]].
+    (in_left, out_left), (in_right, out_right) = q_oper.dims
 
-    A = Qobj(_data.zeros(dK * dL, dL),
-             dims=[out_left + [dK], out_right + [1]],
-             isherm=True,
+    A = Qobj(_data.zeros(dK * d_out, d_in),
+             dims=[out_left + [dK], in_left + [1]],
+             isherm=(d_out * dK == d_in),
              isunitary=False,
              copy=False)
-    B = Qobj(_data.zeros(dK * dR, dR),
-             dims=[in_left + [dK], in_right + [1]],
-             isherm=True,
+    B = Qobj(_data.zeros(dK * d_out, d_in),
+             dims=[out_right + [dK], in_right + [1]],
+             isherm=(d_out * dK == d_in),
              isunitary=False,
              copy=False)
 
@@ -354,8 +351,8 @@ def _choi_to_stinespring(q_oper, threshold=1e-10):
         B += tensor(KR, basis(dK, idx_kraus))
 
     # There is no input (right) Kraus index, so strip that off.
-    A.dims = [out_left + [dK], out_right]
-    B.dims = [in_left + [dK], in_right]
+    A.dims = [out_left + [dK], in_left]
+    B.dims = [out_right + [dK], in_right]
 
     return A, B
 
